@@ -14,16 +14,13 @@ import (
 // tier 1: quick
 // tier 2: thorough
 
-// VBigLen is the data length used by tier 9 (one large data field: the upper end of the domain).
-var VBigLen int
-
 func vDataLen(tier, min int) int {
 	if tier < 0 {
 		return 2
 	}
 	switch tier {
 	case 9:
-		return VBigLen
+		return vr.Param(1) // one large data field (HBigCodec: the upper end of the domain)
 	case 0:
 		return vr.IntOf(min, 3)
 	case 1:
